@@ -52,6 +52,12 @@ func c07Program(spec string) (string, []c07Block) {
 			}
 			kv := strings.SplitN(part, "=", 2)
 			blocks = append(blocks, c07Block{kv[0], kv[1]})
+			if strings.HasPrefix(kv[0], "S") {
+				// the time is parsed and then moved an hour back on the same line: what the parse
+				// gave is not touched by what the line does to its clock afterwards
+				fmt.Fprintf(&b, "/^%s (.+)$/ {\n  strptime($1, \"%s\")\n  settime(timestamp() - 3600)\n  ts = timestamp()\n  n++\n  fl = 0.75\n}\n", kv[0], kv[1])
+				continue
+			}
 			fmt.Fprintf(&b, "/^%s (.+)$/ {\n  strptime($1, \"%s\")\n  ts = timestamp()\n  n++\n  fl = 0.75\n}\n", kv[0], kv[1])
 		}
 	}
@@ -178,6 +184,10 @@ func c07Run(r *runCtx, id string, f []string) {
 						if tm.IsZero() {
 							w.now = true
 						}
+						if strings.HasPrefix(b.tag, "S") {
+							w.instant = time.Unix(tm.Unix()-3600, 0).UTC()
+							w.now = w.instant.IsZero()
+						}
 					}
 					break // the first matching block stops nothing, but tags are distinct
 				}
@@ -288,6 +298,20 @@ func init() {
 					}
 					g.emit("time", fl, hx("A="+lay), hxs(lines))
 				}
+			}
+			// a line that parses its time and then sets its clock back: the same text again, later
+			for _, lay := range c07Layouts {
+				if !strings.Contains(lay, "2006") {
+					continue
+				}
+				var lines []string
+				for k, in := range c07Instants() {
+					if in.Year() > 1971 && in.Year() < 2200 && k%2 == 0 {
+						lines = append(lines, "SA "+in.Format(lay))
+					}
+				}
+				lines = append(lines, lines...)
+				g.emit("time", "-", hx("SA="+lay), hxs(lines))
 			}
 			// several programs in one process, with different options, parsing the same texts one
 			// after the other (a few lines each, so that nothing is pushed out of any memo in between):
